@@ -320,6 +320,17 @@ def all_fixed():
     return [P1(), P2(), P3(), P7(), P8(), P10(), P12()]
 
 
+def with_noise(p, process=None, sensor=None, pid=None):
+    """Copy of p with some noise entries replaced (e.g. an exactly-zero variance, which the generators accept)."""
+    q = p.restrict(pid=pid or (p.id + "-noise"))
+    for c, v in (process or {}).items():
+        q.process_noise[c] = v
+    for key, rs in (sensor or {}).items():
+        for r, v in rs.items():
+            q.sensor_noise[key][r] = v
+    return q
+
+
 def presence_variants(p):
     """The four control x calibration presence combinations of a program that has both."""
     out = []
